@@ -127,8 +127,8 @@ def generate(rng: random.Random, tier: str) -> dict:
     sch = [_draw_chunk(rng, sny), _draw_chunk(rng, snx)]
     dtype = rng.choice(["uint8", "int8", "uint16", "int16", "int32", "float32", "float64", "bool"] * 4 + ["uint32", "int64"])
     kind = np.dtype(dtype).kind
-    nd_cfg = rng.choice(["none", "none", "src", "dst", "both", "nan"])
-    if nd_cfg == "nan" and kind != "f":
+    nd_cfg = rng.choice(["none", "none", "src", "dst", "both", "nan", "nan+dst"])
+    if nd_cfg in ("nan", "nan+dst") and kind != "f":
         nd_cfg = "none"
     src_nd = dst_nd = None
     if nd_cfg in ("src", "both"):
@@ -139,8 +139,10 @@ def generate(rng: random.Random, tier: str) -> dict:
         # two values only: the data is whatever the nodata value is not
         b = rng.choice([0, 1, 1])
         src_nd, dst_nd = (b if src_nd is not None else None), (b if dst_nd is not None else None)
-    if nd_cfg == "nan":
+    if nd_cfg in ("nan", "nan+dst"):
         src_nd = "nan"
+    if nd_cfg == "nan+dst":
+        dst_nd = rng.choice([99, 0, 7])  # NaN-coded source nodata, another value asked for in the result
     tdim = rng.choice([0, 0, 0, 1, 2, 3, 3, 4])
     bdim = rng.choice([2, 3, 4]) if (tdim == 0 and rng.random() < 0.08) else 0  # trailing band axis instead
     # explicit, irregular chunk sizes along the non-spatial axis (what concatenation or slicing leaves behind)
@@ -353,6 +355,8 @@ def generate(rng: random.Random, tier: str) -> dict:
         "mode": mode,
         "dtype": dtype,
         "holes": holes,
+        # valid source pixels that happen to hold the value asked for as destination nodata
+        "plant_dst": bool(dst_nd is not None and dst_nd != src_nd and dtype != "bool" and rng.random() < 0.3),
         "pair": pair,
         "src_nodata": src_nd,
         "dst_nodata": dst_nd,
@@ -373,7 +377,7 @@ def generate(rng: random.Random, tier: str) -> dict:
                 "recompute": rng.choice([0.0, 0.0, 0.1, 0.3]),
                 "stall": rng.choice([0.0, 0.0, 0.1]),
                 "policy": draw_policy(rng, groups=None, horizon=200),
-                "trace": rng.choice(["seams", "lines"]),
+                "trace": rng.choice(["seams"] * 5 + ["lines"] * 3 + ["deep"] * 2),
             }
             for _ in range(2)
         ],
@@ -532,6 +536,7 @@ def execute(record: dict, rng: Optional[random.Random]) -> Outcome:
         "global_pairs_raising": 0,
         "extreme_zoom_in": 0,
         "paired_requests": 0,
+        "source_holds_destination_nodata_value": 0,
         "line_preemption_runs": 0,
         "source_holds_nodata_pixels": 0,
         "chunk_with_gdal_identity_transform": 0,
@@ -566,6 +571,10 @@ def execute(record: dict, rng: Optional[random.Random]) -> Outcome:
         flat = data.reshape(-1)
         flat[1 :: int(cfg["holes"])] = np.asarray(src_nd).astype(data.dtype)
         probes["source_holds_nodata_pixels"] = 1
+    if cfg.get("plant_dst") and dst_nd is not None:
+        flat = data.reshape(-1)
+        flat[3::11] = np.asarray(dst_nd).astype(data.dtype)
+        probes["source_holds_destination_nodata_value"] = 1
     if dtype in ("int8", "bool"):
         probes["int8_or_bool_detour"] = 1
     if hasattr(OD, "uuid4"):
@@ -628,8 +637,8 @@ def execute(record: dict, rng: Optional[random.Random]) -> Outcome:
             ch.policy = dcfg.get("policy") or {"kind": "uniform"}
             # pre-emption at the entry of the three seam functions, or ("trace": "lines") at every line of the
             # chunk-level code (_dask.py, _blocks.py, warp.py) that runs inside tasks
-            kernel = (Kernel(trace_files=_line_files()) if dcfg.get("trace") == "lines" else Kernel(seam_funcs=_seams())) if dcfg["workers"] > 1 else None
-            if kernel is not None and dcfg.get("trace") == "lines":
+            kernel = (Kernel(trace_files=_line_files(dcfg.get("trace") == "deep")) if dcfg.get("trace") in ("lines", "deep") else Kernel(seam_funcs=_seams())) if dcfg["workers"] > 1 else None
+            if kernel is not None and dcfg.get("trace") in ("lines", "deep"):
                 probes["line_preemption_runs"] = 1
             sim = DaskSim(
                 ch,
@@ -753,12 +762,16 @@ def _hash_arr(a: np.ndarray) -> str:
 _SEAMS: Optional[Tuple[Tuple[str, str], ...]] = None
 
 
-def _line_files() -> Tuple[str, ...]:
+def _line_files(deep: bool = False) -> Tuple[str, ...]:
     import odc.geo._blocks as B
     import odc.geo._dask as OD
+    import odc.geo.geobox as G
+    import odc.geo.roi as R
     import odc.geo.warp as W
 
-    return (OD.__file__, B.__file__, W.__file__)
+    # deep: also the tiling objects embedded in the graph and shared by every task (GeoboxTiles.clip, crops, tile
+    # lookups) - check-then-act on such an object is invisible unless a task is pre-empted inside it (c13l)
+    return (OD.__file__, B.__file__, W.__file__) + ((G.__file__, R.__file__) if deep else ())
 
 
 def _seams() -> Tuple[Tuple[str, str], ...]:
@@ -848,7 +861,7 @@ def check(cfg, src, dst, ref: np.ndarray, outs: List[np.ndarray], fv, probes) ->
         # pixel content: across CRSs GDAL's approximate transformer may pick the neighbouring source pixel
         # (outside the statement), and on inexact grids exact ties are left out as they are for O13.1
         inner_ = inner
-        if cfg.get("holes"):
+        if cfg.get("holes") or cfg.get("plant_dst"):  # the source holds pixels equal to the fill value
             if src["crs"] != dst["crs"]:
                 inner_ = np.zeros_like(inner)
             elif cfg["mode"] != "same-exact":
@@ -920,10 +933,10 @@ def candidates(record: dict) -> Iterable[dict]:
         c = copy.deepcopy(record)
         c["config"]["bdim"] = 0
         yield c
-    for k in ("src_irregular", "dst_default", "ns_irregular", "big_endian_input", "pair", "holes"):
+    for k in ("src_irregular", "dst_default", "ns_irregular", "big_endian_input", "pair", "holes", "plant_dst"):
         if cfg.get(k):
             c = copy.deepcopy(record)
-            c["config"][k] = False if k in ("dst_default", "big_endian_input") else (0 if k == "holes" else None)
+            c["config"][k] = False if k in ("dst_default", "big_endian_input", "plant_dst") else (0 if k == "holes" else None)
             yield c
     for k, simple in (("resampling", "nearest"), ("dst_nodata", None), ("src_nodata", None), ("dtype", "uint8"), ("dtype", "float32"), ("time_chunk", 1)):
         if cfg.get(k) != simple:
